@@ -21,6 +21,14 @@ const (
 
 var allConfigs = []string{cfgOn, cfgPlain, cfgOff, cfgProfiler}
 
+// configsOf lists the configurations a case of the given family runs under.
+func configsOf(c Case) []string {
+	if c.Family == "entry" {
+		return entryConfigs
+	}
+	return allConfigs
+}
+
 // stepCap bounds a run under the monitoring context so that a broken
 // evaluator cannot wedge the check; reaching it is reported, never compared.
 const stepCap = 4_000_000
@@ -69,11 +77,12 @@ type rt struct {
 	probes [][]string
 	prof   *countingProfiler
 	uses   int
+	root   *el.StepCtx // entry family: the context installed on the root environment
 }
 
-func newRT(cfg string) *rt {
+func newRT(cfg string, configs ...lisp.Config) *rt {
 	x := &rt{}
-	x.env = el.MustEnv(el.Opts{Builtins: []lisp.LBuiltinDef{probeDef{sink: &x.probes}}})
+	x.env = el.MustEnv(el.Opts{Builtins: []lisp.LBuiltinDef{probeDef{sink: &x.probes}}, Configs: configs})
 	switch cfg {
 	case cfgOff:
 		x.env.Runtime.Debugger = el.Dormant{}
@@ -113,9 +122,13 @@ type runOpts struct {
 	Limit   int // Stack.MaxTailIterations for this run (0: the default)
 	MaxPhys int // Stack.MaxHeightPhysical for this run (0: the default)
 	Host    []hostCall
+	Entry   *entrySpec // entry family: how the two halves of the program enter the runtime
 }
 
 func execute(p *pool, src string, ro runOpts, cfg string) (o obs) {
+	if ro.Entry != nil {
+		return executeEntry(p, src, ro, cfg)
+	}
 	var x *rt
 	if p != nil {
 		x = p.rts[cfg]
@@ -264,7 +277,7 @@ func restrictFrames(frames []string, blocker string) string {
 func Describe(c Case) string {
 	var b strings.Builder
 	src := Source(c)
-	for _, cfg := range allConfigs {
+	for _, cfg := range configsOf(c) {
 		o := execute(nil, src, optsOf(c), cfg)
 		depth := -1
 		fr := ""
@@ -277,7 +290,7 @@ func Describe(c Case) string {
 		}
 		fmt.Fprintf(&b, "N=%d limit=%d %-26s %s max_height=%d base_depth=%d steps=%d\n    base frames: %s\n", c.N, optsOf(c).Limit, cfg, o.Out.String(), o.MaxHeight, depth, o.Steps, fr)
 	}
-	fs, _ := checkProgram(nil, c, allConfigs)
+	fs, _ := checkProgram(nil, c, configsOf(c))
 	for _, f := range fs {
 		fmt.Fprintf(&b, "FINDING %s: expected %s; got %s\n", f.Oracle, f.Expected, f.Got)
 	}
